@@ -100,3 +100,60 @@ def _kf2(prop, f):
     if not parsing.long_numerals(q):
         return False
     return (not _lossless_explained(q, printed, False, False)) and _lossless_explained(q, printed, False, True)
+
+
+# ---------------------------------------------------------------------------------------------
+# KF8 / KF9 (C13, C11): glued tokens that re-lex differently
+# ---------------------------------------------------------------------------------------------
+
+def _glue_repair(node, kinds):
+    """put a blank where KF8 / KF9 glue two tokens; returns the number of repairs"""
+    import re
+    from . import common
+    T = common.impl().tree
+    n = 0
+    for c in node.children:
+        n += _glue_repair(c, kinds)
+    if "KF8" in kinds and isinstance(node, T.SearchField):
+        text = node.expr.__str__(head_tail=True)
+        if re.search(r"T\d\d$", node.name) and re.match(r"\d\d", text):
+            node.expr.head = " " + node.expr.head
+            n += 1
+    if "KF9" in kinds and isinstance(node, T.OpenRange) and not node.include:
+        text = node.a.__str__(head_tail=True)
+        if text.startswith("="):
+            node.a.head = " " + node.a.head
+            n += 1
+    return n
+
+
+def _glue_explained(f, mine, others):
+    """the failure disappears with my repair (plus the other known glue repairs) but not without mine"""
+    from . import common, parsing
+    inp = f.get("input") or {}
+    if "tree" not in inp or "printed" not in inp:
+        return False
+    I = common.impl()
+    target = common.load_tree(inp["tree"])
+
+    def ok(kinds):
+        t = common.load_tree(inp.get("transformed") or inp["tree"])
+        if "transformed" not in inp:
+            t = I.aht.auto_head_tail(t)
+        if _glue_repair(t, kinds) == 0 and kinds:
+            pass
+        r, back = parsing.impl_parse(t.__str__(head_tail=True))
+        cmp_to = common.load_tree(inp["expect"]) if "expect" in inp else target
+        return back is not None and back == cmp_to
+
+    return (not ok(others)) and ok(others | {mine})
+
+
+@classifier("KF8")
+def _kf8(prop, f):
+    return _glue_explained(f, "KF8", {"KF9"})
+
+
+@classifier("KF9")
+def _kf9(prop, f):
+    return _glue_explained(f, "KF9", set()) or _glue_explained(f, "KF9", {"KF8"})
